@@ -31,49 +31,125 @@ def run(ctx):
     # D4 one plan() per iteration
     yf = [n for n in A.walk_local(lp) if isinstance(n, ast.YieldFrom)]
     calls = [A.norm(n.value) for n in yf]
-    ok = calls.count("ensure_generator(plan())") == 1 and A.norm(lp.iter) == "iterator"
+    ok = calls.count("ensure_generator(plan())") == 1
     ctx.ob("C28.D4-one-plan-per-iteration", cname(f, None, "exactly one `yield from plan()` per iteration of the counter"), ok,
            "" if ok else f"loop yields from {calls}", nontrivial=True, where=where(f, lp))
+    # the counter: what the loop iterates is range(num), or itertools.count() exactly when num is None
+    it = q.expand(rp.node, lp.iter)
+    def counter_ok(e):
+        if isinstance(e, ast.IfExp):
+            t = A.norm(e.test)
+            a_, b_ = A.norm(e.body), A.norm(e.orelse)
+            return (t == "num is None" and a_ == "itertools.count()" and b_ == "range(num)") or (t == "num is not None" and a_ == "range(num)" and b_ == "itertools.count()")
+        return False
     txt = A.norm(rp.node)
-    ok = "iterator = itertools.count()" in txt and "iterator = range(num)" in txt and any(
-        isinstance(s, ast.If) and A.norm(s.test) == "num is None" for s in rp.node.body)
+    ok = counter_ok(it) or (A.norm(lp.iter) == "iterator" and "iterator = itertools.count()" in txt and "iterator = range(num)" in txt and any(
+        isinstance(s_, ast.If) and A.norm(s_.test) in ("num is None", "num is not None") for s_ in rp.node.body))
     ctx.ob("C28.D4-one-plan-per-iteration", cname(rp, None, "counter = range(num), or unbounded when num is None"), ok, "" if ok else "the repetition counter changed", where=where(rp, rp.node))
-    nested = [s for s in A.walk_stmts(lp.body) if isinstance(s, (ast.For, ast.While))]
+    nested = [s_ for s_ in A.walk_stmts(lp.body) if isinstance(s_, (ast.For, ast.While))]
     ctx.ob("C28.D4-one-plan-per-iteration", cname(f, None, "no inner loop around the plan"), not nested, "" if not nested else "nested loop", where=where(f, lp))
-    # D2 sleep only for a positive remainder
-    sleeps = [s for s in A.walk_stmts(lp.body) if isinstance(s, ast.Expr) and any(A.is_msg_yield(n, "sleep") for n in A.walk_local(s))]
+    # D2 sleep only for a positive remainder - decided on what the expressions compute (reaching definitions), not on their spelling
+    sleeps = [s_ for s_ in A.walk_stmts(lp.body) if isinstance(s_, ast.Expr) and any(A.is_msg_yield(n, "sleep") for n in A.walk_local(s_))]
     ok = len(sleeps) == 1
     ctx.ob("C28.D2-sleep-positive-remainder", cname(f, None, "one sleep site"), ok, "" if ok else f"{len(sleeps)} sleep sites", where=where(f, lp))
-    if sleeps:
-        w = q.guard_true_dominates(g, sleeps[0], lambda t: A.norm(t) == "d > 0", "T")
-        ctx.ob("C28.D2-sleep-positive-remainder", cname(f, None, "sleep dominated by `d > 0`"), w is None,
-               "" if w is None else "a zero / negative remaining delay is slept (sleep of a negative time raises)", nontrivial=True, witness=w, where=where(f, sleeps[0]))
-        w = q.guard_true_dominates(g, sleeps[0], lambda t: A.norm(t) == "d is not None", "T")
-        ctx.ob("C28.D2-sleep-positive-remainder", cname(f, None, "a None delay is skipped"), w is None, "" if w is None else "None delay reaches the arithmetic", where=where(f, sleeps[0]))
+    plan_stmt = next((s_ for s_ in A.walk_stmts(lp.body) if not isinstance(s_, (ast.If, ast.Try, ast.For, ast.While, ast.With)) and any(
+        isinstance(n, ast.YieldFrom) and A.norm(n.value) == "ensure_generator(plan())" for n in A.walk_local(s_))), None)
+    if sleeps and plan_stmt is not None:
         y = [n for n in A.walk_local(sleeps[0]) if A.is_msg_yield(n, "sleep")][0]
-        ok = A.norm(y.value.args[2]) == "d"
-        ctx.ob("C28.D2-sleep-positive-remainder", cname(f, None, "sleeps for the remainder d"), ok, "" if ok else "sleeps for another amount", where=where(f, sleeps[0]))
-    body = [A.norm(s) for s in A.walk_stmts(lp.body)]
-    ok = "now = time.time()" in body and "d = d - (time.time() - now)" in body and body.index("now = time.time()") < body.index("yield from ensure_generator(plan())")
-    ctx.ob("C28.D2-sleep-positive-remainder", cname(f, None, "remainder = requested delay - time elapsed since the repetition started"), ok,
-           "" if ok else "elapsed time is not measured from the start of the repetition / not subtracted", nontrivial=True, where=where(f, lp))
-    ok = "d = next(delay)" in body and body.index("yield from ensure_generator(plan())") < body.index("d = next(delay)")
-    ctx.ob("C28.D2-sleep-positive-remainder", cname(f, None, "the delay is drawn after the repetition ran"), ok, "" if ok else "delay drawn before the plan", where=where(f, lp))
+        nid = g.nodes_of(sleeps[0])[0]
+        amount = q.expand_at(g, nid, y.value.args[2]) if len(y.value.args) >= 3 else None
+        # amount must be  <drawn delay> - (time.time() - <start>)  with <drawn delay> = next(<delays>) and <start> = time.time() taken before the plan ran
+        def parts(e):
+            if isinstance(e, ast.BinOp) and isinstance(e.op, ast.Sub) and isinstance(e.right, ast.BinOp) and isinstance(e.right.op, ast.Sub):
+                return e.left, e.right.left, e.right.right
+            return None
+        pr = parts(amount) if amount is not None else None
+        drawn_ok = pr is not None and isinstance(pr[0], ast.Call) and A.call_name(pr[0]) == "next" and len(pr[0].args) == 1
+        now_ok = pr is not None and A.norm(pr[1]) == "time.time()" and A.norm(pr[2]) == "time.time()"
+        # <start>: the raw third operand must be a name whose single reaching definition is `time.time()` located before the plan in the loop
+        start_ok = False
+        raw = y.value.args[2] if len(y.value.args) >= 3 else None
+        start_names = set()
+        if raw is not None:
+            stack = [q.expand_at(g, nid, raw, depth=3, keep=())]
+        for st_ in A.walk_stmts(lp.body):
+            if isinstance(st_, ast.Assign) and A.norm(st_.value) == "time.time()" and isinstance(st_.targets[0], ast.Name):
+                start_names.add((st_.targets[0].id, st_.lineno))
+        start_ok = any(ln < plan_stmt.lineno for _n, ln in start_names) and len(start_names) == 1
+        ok = drawn_ok and now_ok and start_ok
+        ctx.ob("C28.D2-sleep-positive-remainder", cname(f, None, "remainder = requested delay - time elapsed since the repetition started"), ok,
+               "" if ok else f"the amount slept evaluates to `{A.short(amount, 80) if amount is not None else '?'}`: elapsed time is not measured from the start of the repetition / not subtracted",
+               nontrivial=True, where=where(f, sleeps[0]))
+        # guards: the same amount is tested > 0, and the drawn delay is tested against None
+        pm_ = A.parents(f.node)
+        n_, pos_ok, none_ok = sleeps[0], False, False
+        while n_ in pm_:
+            par = pm_[n_]
+            if isinstance(par, ast.If) and n_ in par.body:
+                tnid = [x for x in g.nodes_of(par) if g.nodes[x].kind == "test"]
+                t = par.test
+                if isinstance(t, ast.Compare) and len(t.ops) == 1 and isinstance(t.ops[0], ast.Gt) and A.norm(t.comparators[0]) == "0" and tnid \
+                        and amount is not None and A.norm(q.expand_at(g, tnid[0], t.left)) == A.norm(amount):
+                    pos_ok = True
+                if isinstance(t, ast.Compare) and len(t.ops) == 1 and isinstance(t.ops[0], ast.IsNot) and A.norm(t.comparators[0]) == "None" and tnid \
+                        and pr is not None and A.norm(q.expand_at(g, tnid[0], t.left)) == A.norm(pr[0]):
+                    none_ok = True
+            n_ = par
+        ctx.ob("C28.D2-sleep-positive-remainder", cname(f, None, "sleep only when the remainder is > 0"), pos_ok,
+               "" if pos_ok else "a zero / negative remaining delay is slept (sleep of a negative time raises)", nontrivial=True, where=where(f, sleeps[0]))
+        ctx.ob("C28.D2-sleep-positive-remainder", cname(f, None, "a None delay is skipped"), none_ok, "" if none_ok else "None delay reaches the arithmetic", where=where(f, sleeps[0]))
+        # the delay is drawn after the repetition ran
+        draws = [s_ for s_ in A.walk_stmts(lp.body) if isinstance(s_, ast.Assign) and isinstance(s_.value, ast.Call) and A.call_name(s_.value) == "next"]
+        ok = len(draws) == 1 and draws[0].lineno > plan_stmt.lineno
+        ctx.ob("C28.D2-sleep-positive-remainder", cname(f, None, "the delay is drawn after the repetition ran"), ok, "" if ok else "delay drawn before the plan", where=where(f, lp))
     # D3 not enough delays
-    pre = [s for s in A.walk_stmts(rp.node.body) if isinstance(s, ast.If) and A.norm(s.test) == "num and num - 1 > num_delays" and any(isinstance(x, ast.Raise) and "ValueError" in A.norm(x) for x in s.body)]
+    # up-front check: some test that contains `num - 1 > <number of delays>` (conjoined with guards) raises ValueError before the loop is built
+    def has_len_test(t):
+        return any(isinstance(n, ast.Compare) and len(n.ops) == 1 and isinstance(n.ops[0], ast.Gt) and A.norm(n.left) == "num - 1" for n in ast.walk(t))
+    pre = [s_ for s_ in A.walk_stmts(rp.node.body) if isinstance(s_, ast.If) and has_len_test(s_.test) and any(isinstance(x, ast.Raise) and "ValueError" in A.norm(x) for x in s_.body)]
     ctx.ob("C28.D3-delays-run-out", cname(rp, None, "sized delays shorter than num-1 -> ValueError before running"), bool(pre), "" if pre else "up-front length check changed", where=where(rp, rp.node))
-    hs = [h for s in A.walk_stmts(lp.body) if isinstance(s, ast.Try) for h in s.handlers if h.type is not None and A.norm(h.type) == "StopIteration"]
-    ok = False
+    # delays exhausted: the StopIteration handler ends the loop iff this was the last requested repetition or num is None, else raises
+    # ValueError - its if-tree is evaluated for the four truth assignments of (i + 1 == num, num is None)
+    from .. import booleval
+    hs = [h for s_ in A.walk_stmts(lp.body) if isinstance(s_, ast.Try) for h in s_.handlers if h.type is not None and A.norm(h.type) == "StopIteration"]
+    def outcome(block, env):
+        for x in block:
+            if isinstance(x, ast.Break):
+                return "break"
+            if isinstance(x, ast.Raise):
+                return "raise ValueError" if "ValueError" in A.norm(x) else "raise other"
+            if isinstance(x, (ast.Continue, ast.Return)):
+                return type(x).__name__.lower()
+            if isinstance(x, ast.If):
+                v = booleval.ev(x.test, env)
+                if v is None:
+                    return "?"
+                r = outcome(x.body if v else x.orelse, env)
+                if r is not None:
+                    return r
+        return None
+    ok = bool(hs)
+    detail = ""
     if hs:
-        ifs = [x for x in hs[0].body if isinstance(x, ast.If)]
-        if ifs:
-            t1 = ifs[0]
-            el = [o for o in t1.orelse if isinstance(o, ast.If)]
-            ok = A.norm(t1.test) == "i + 1 == num" and isinstance(t1.body[0], ast.Break) and bool(el) and A.norm(el[0].test) == "num is None" and isinstance(el[0].body[0], ast.Break) \
-                and any(isinstance(x, ast.Raise) and "ValueError" in A.norm(x) for x in el[0].orelse)
+        for last in (True, False):
+            for unbounded in (True, False):
+                got = outcome(hs[0].body, {"i + 1 == num": last, "num == i + 1": last, "num is None": unbounded, "num is not None": not unbounded})
+                want = "break" if (last or unbounded) else "raise ValueError"
+                if got != want:
+                    ok = False
+                    detail = f"last-requested-repetition={last}, num-is-None={unbounded}: the handler does `{got}`, expected `{want}`"
     ctx.ob("C28.D3-delays-run-out", cname(f, None, "delays exhausted: stop only after the last requested repetition (or num None), else ValueError"), ok,
-           "" if ok else "running out of delays silently ends the repetitions early / runs extra ones", nontrivial=True, where=where(f, lp))
-    ok = "delay = itertools.repeat(delay)" in txt and "delay = iter(delay)" in txt and "not isinstance(delay, Iterable)" in txt
+           detail or ("" if ok else "running out of delays silently ends the repetitions early / runs extra ones"), nontrivial=True, where=where(f, lp))
+    # delay normalisation: under `not isinstance(delay, Iterable)` the delays are itertools.repeat(delay), otherwise iter(delay); the loop draws from that variable
+    norm_ifs = [s_ for s_ in rp.node.body if isinstance(s_, ast.If) and A.norm(s_.test) in ("not isinstance(delay, Iterable)", "isinstance(delay, Iterable)")]
+    ok = False
+    if norm_ifs:
+        pos = norm_ifs[0].body if A.norm(norm_ifs[0].test).startswith("not") else norm_ifs[0].orelse
+        neg = norm_ifs[0].orelse if A.norm(norm_ifs[0].test).startswith("not") else norm_ifs[0].body
+        a1 = [x for x in A.walk_stmts(pos) if isinstance(x, ast.Assign) and A.norm(x.value) == "itertools.repeat(delay)"]
+        a2 = [x for x in A.walk_stmts(neg) if isinstance(x, ast.Assign) and A.norm(x.value) == "iter(delay)"]
+        draws_ = [x for x in A.walk_stmts(lp.body) if isinstance(x, ast.Assign) and isinstance(x.value, ast.Call) and A.call_name(x.value) == "next"]
+        ok = len(a1) == 1 and len(a2) == 1 and A.norm(a1[0].targets[0]) == A.norm(a2[0].targets[0]) and len(draws_) == 1 and A.norm(draws_[0].value.args[0]) == A.norm(a1[0].targets[0])
     ctx.ob("C28.D3-delays-run-out", cname(rp, None, "scalar delay repeated forever; iterable delay iterated"), ok, "" if ok else "delay normalisation changed", where=where(rp, rp.node))
     ok = any(isinstance(s, ast.Return) and isinstance(s.value, ast.YieldFrom) and A.norm(s.value.value) == "repeated_plan()" for s in rp.node.body)
     ctx.ob("C28.D4-one-plan-per-iteration", cname(rp, None, "repeat runs repeated_plan once"), ok, "" if ok else "repeated_plan not run exactly once", where=where(rp, rp.node))
@@ -81,7 +157,7 @@ def run(ctx):
     c = repo.func(PL, "count")
     ic = repo.func(PL, "count.inner_count")
     rets = [n for n in A.walk_local(ic.node) if isinstance(n, ast.YieldFrom) and A.call_name(n.value) in ("bps.repeat", "repeat")]
-    ok = len(rets) == 1 and A.norm(rets[0].value.args[0]) == "partial(msg_per_step, detectors)" and A.norm(A.kw(rets[0].value, "num")) == "num" and A.norm(A.kw(rets[0].value, "delay")) == "delay"
+    ok = len(rets) == 1 and A.norm(q.expand(ic.node, rets[0].value.args[0])) == "partial(msg_per_step, detectors)" and A.norm(A.kw(rets[0].value, "num")) == "num" and A.norm(A.kw(rets[0].value, "delay")) == "delay"
     ctx.ob("C28.D4-count-forwards", cname(ic, None, "repeat(partial(per_shot, detectors), num=num, delay=delay)"), ok, "" if ok else "count no longer forwards num / delay to repeat", nontrivial=True, where=where(ic, ic.node))
     decos = [A.norm(d) for d in ic.node.decorator_list]
     ok = decos == ["bpp.stage_decorator(detectors)", "bpp.run_decorator(md=_md)"]
